@@ -301,7 +301,7 @@ func TestC10(t *testing.T) {
 		"top-level PASTE is not a reorderable declaration (its meaning depends on the block before it)")
 	h.Require("accepted", "allOf-chain>=2")
 	maxPerms := h.Pick(24, 120)
-	vlib.Rapid(h, "permutations", h.N(1500, 60000), func(t *rapid.T) c10Case {
+	vlib.Rapid(h, "permutations", h.N(1500, 25000), func(t *rapid.T) c10Case {
 		doc := vlib.GenDoc(t, vlib.GenOpts{Macros: rapid.Bool().Draw(t, "macros"), Inheritance: rapid.Bool().Draw(t, "inheritance")})
 		_, units := doc.Blocks()
 		return c10Case{Doc: doc, Perms: genPerms(t, len(units), maxPerms)}
